@@ -32,7 +32,7 @@ func genC16(r *simrt.Rand, tier string, idx int) *hx.Program {
 			p.Ops = append(p.Ops, hx.Op{K: "sleep", S: fmt.Sprintf("p%d", pub), A: []int64{int64(1 + r.Intn(30))}})
 			continue
 		}
-		kind := []int64{0, 1, 1, 1, 2, 3}[r.Intn(6)]
+		kind := []int64{0, 1, 1, 1, 2, 3, 1, 4}[r.Intn(8)]
 		p.Ops = append(p.Ops, hx.Op{K: "pub", S: fmt.Sprintf("p%d", pub), A: []int64{kind, int64(1 + r.Intn(2)), int64(r.Uint64() >> 1)}})
 	}
 	return p
@@ -114,8 +114,10 @@ func execC16(t *testing.T, prog *hx.Program, dec *simrt.Decider, verbose bool) *
 						if a.expected < 0 {
 							a.expected = known + 5
 						}
-					default:
+					case 3:
 						a.expected = known + 1 + int64(op.Arg(2, 0)%3)
+					default:
+						a.expected = -2 - int64(op.Arg(2, 0)%5) // only -1 waives the check
 					}
 					a.val = []byte(fmt.Sprintf("v-%d-%d-%d", ci, len(attempts), op.Arg(2, 0)%100000))
 					attempts = append(attempts, a)
